@@ -1,24 +1,60 @@
+Agg/AntiUnify.vo Agg/AntiUnify.glob Agg/AntiUnify.v.beautified Agg/AntiUnify.required_vo: Agg/AntiUnify.v Ir/Syntax.vo Ir/Fold.vo Agg/Instance.vo
+Agg/AntiUnify.vio: Agg/AntiUnify.v Ir/Syntax.vio Ir/Fold.vio Agg/Instance.vio
+Agg/AntiUnify.vos Agg/AntiUnify.vok Agg/AntiUnify.required_vos: Agg/AntiUnify.v Ir/Syntax.vos Ir/Fold.vos Agg/Instance.vos
 Agg/Instance.vo Agg/Instance.glob Agg/Instance.v.beautified Agg/Instance.required_vo: Agg/Instance.v Ir/Syntax.vo Ir/Fold.vo
 Agg/Instance.vio: Agg/Instance.v Ir/Syntax.vio Ir/Fold.vio
 Agg/Instance.vos Agg/Instance.vok Agg/Instance.required_vos: Agg/Instance.v Ir/Syntax.vos Ir/Fold.vos
+Agg/MayInv.vo Agg/MayInv.glob Agg/MayInv.v.beautified Agg/MayInv.required_vo: Agg/MayInv.v Ir/Syntax.vo Ir/Fold.vo Agg/Instance.vo Agg/AntiUnify.vo
+Agg/MayInv.vio: Agg/MayInv.v Ir/Syntax.vio Ir/Fold.vio Agg/Instance.vio Agg/AntiUnify.vio
+Agg/MayInv.vos Agg/MayInv.vok Agg/MayInv.required_vos: Agg/MayInv.v Ir/Syntax.vos Ir/Fold.vos Agg/Instance.vos Agg/AntiUnify.vos
+Agg/Solution.vo Agg/Solution.glob Agg/Solution.v.beautified Agg/Solution.required_vo: Agg/Solution.v Ir/Syntax.vo Ir/Fold.vo Agg/Instance.vo Agg/AntiUnify.vo
+Agg/Solution.vio: Agg/Solution.v Ir/Syntax.vio Ir/Fold.vio Agg/Instance.vio Agg/AntiUnify.vio
+Agg/Solution.vos Agg/Solution.vok Agg/Solution.required_vos: Agg/Solution.v Ir/Syntax.vos Ir/Fold.vos Agg/Instance.vos Agg/AntiUnify.vos
 Check/Priorities.vo Check/Priorities.glob Check/Priorities.v.beautified Check/Priorities.required_vo: Check/Priorities.v 
 Check/Priorities.vio: Check/Priorities.v 
 Check/Priorities.vos Check/Priorities.vok Check/Priorities.required_vos: Check/Priorities.v 
 Engine/AndOr.vo Engine/AndOr.glob Engine/AndOr.v.beautified Engine/AndOr.required_vo: Engine/AndOr.v 
 Engine/AndOr.vio: Engine/AndOr.v 
 Engine/AndOr.vos Engine/AndOr.vok Engine/AndOr.required_vos: Engine/AndOr.v 
+Engine/AndOrFacts.vo Engine/AndOrFacts.glob Engine/AndOrFacts.v.beautified Engine/AndOrFacts.required_vo: Engine/AndOrFacts.v Engine/AndOr.vo
+Engine/AndOrFacts.vio: Engine/AndOrFacts.v Engine/AndOr.vio
+Engine/AndOrFacts.vos Engine/AndOrFacts.vok Engine/AndOrFacts.required_vos: Engine/AndOrFacts.v Engine/AndOr.vos
 Engine/RecEngine.vo Engine/RecEngine.glob Engine/RecEngine.v.beautified Engine/RecEngine.required_vo: Engine/RecEngine.v Engine/AndOr.vo
 Engine/RecEngine.vio: Engine/RecEngine.v Engine/AndOr.vio
 Engine/RecEngine.vos Engine/RecEngine.vok Engine/RecEngine.required_vos: Engine/RecEngine.v Engine/AndOr.vos
+Engine/RecWitness.vo Engine/RecWitness.glob Engine/RecWitness.v.beautified Engine/RecWitness.required_vo: Engine/RecWitness.v Engine/RecEngine.vo
+Engine/RecWitness.vio: Engine/RecWitness.v Engine/RecEngine.vio
+Engine/RecWitness.vos Engine/RecWitness.vok Engine/RecWitness.required_vos: Engine/RecWitness.v Engine/RecEngine.vos
+Engine/SlgTable.vo Engine/SlgTable.glob Engine/SlgTable.v.beautified Engine/SlgTable.required_vo: Engine/SlgTable.v Logic/Contract.vo
+Engine/SlgTable.vio: Engine/SlgTable.v Logic/Contract.vio
+Engine/SlgTable.vos Engine/SlgTable.vok Engine/SlgTable.required_vos: Engine/SlgTable.v Logic/Contract.vos
+Infer/Answer.vo Infer/Answer.glob Infer/Answer.v.beautified Infer/Answer.required_vo: Infer/Answer.v Ir/Syntax.vo Ir/Fold.vo Infer/Canon.vo
+Infer/Answer.vio: Infer/Answer.v Ir/Syntax.vio Ir/Fold.vio Infer/Canon.vio
+Infer/Answer.vos Infer/Answer.vok Infer/Answer.required_vos: Infer/Answer.v Ir/Syntax.vos Ir/Fold.vos Infer/Canon.vos
+Infer/Canon.vo Infer/Canon.glob Infer/Canon.v.beautified Infer/Canon.required_vo: Infer/Canon.v Ir/Syntax.vo Ir/Fold.vo
+Infer/Canon.vio: Infer/Canon.v Ir/Syntax.vio Ir/Fold.vio
+Infer/Canon.vos Infer/Canon.vok Infer/Canon.required_vos: Infer/Canon.v Ir/Syntax.vos Ir/Fold.vos
+Infer/Closed.vo Infer/Closed.glob Infer/Closed.v.beautified Infer/Closed.required_vo: Infer/Closed.v Ir/Syntax.vo Ir/Fold.vo Infer/Table.vo Infer/Unify.vo Infer/Variance.vo
+Infer/Closed.vio: Infer/Closed.v Ir/Syntax.vio Ir/Fold.vio Infer/Table.vio Infer/Unify.vio Infer/Variance.vio
+Infer/Closed.vos Infer/Closed.vok Infer/Closed.required_vos: Infer/Closed.v Ir/Syntax.vos Ir/Fold.vos Infer/Table.vos Infer/Unify.vos Infer/Variance.vos
+Infer/Exec.vo Infer/Exec.glob Infer/Exec.v.beautified Infer/Exec.required_vo: Infer/Exec.v Ir/Syntax.vo Ir/Fold.vo Infer/Canon.vo Infer/UCanon.vo Infer/Answer.vo
+Infer/Exec.vio: Infer/Exec.v Ir/Syntax.vio Ir/Fold.vio Infer/Canon.vio Infer/UCanon.vio Infer/Answer.vio
+Infer/Exec.vos Infer/Exec.vok Infer/Exec.required_vos: Infer/Exec.v Ir/Syntax.vos Ir/Fold.vos Infer/Canon.vos Infer/UCanon.vos Infer/Answer.vos
 Infer/Script.vo Infer/Script.glob Infer/Script.v.beautified Infer/Script.required_vo: Infer/Script.v Ir/Syntax.vo Ir/Fold.vo Infer/Table.vo Infer/Unify.vo
 Infer/Script.vio: Infer/Script.v Ir/Syntax.vio Ir/Fold.vio Infer/Table.vio Infer/Unify.vio
 Infer/Script.vos Infer/Script.vok Infer/Script.required_vos: Infer/Script.v Ir/Syntax.vos Ir/Fold.vos Infer/Table.vos Infer/Unify.vos
 Infer/Table.vo Infer/Table.glob Infer/Table.v.beautified Infer/Table.required_vo: Infer/Table.v Ir/Syntax.vo
 Infer/Table.vio: Infer/Table.v Ir/Syntax.vio
 Infer/Table.vos Infer/Table.vok Infer/Table.required_vos: Infer/Table.v Ir/Syntax.vos
+Infer/UCanon.vo Infer/UCanon.glob Infer/UCanon.v.beautified Infer/UCanon.required_vo: Infer/UCanon.v Ir/Syntax.vo Ir/Fold.vo Infer/Canon.vo
+Infer/UCanon.vio: Infer/UCanon.v Ir/Syntax.vio Ir/Fold.vio Infer/Canon.vio
+Infer/UCanon.vos Infer/UCanon.vok Infer/UCanon.required_vos: Infer/UCanon.v Ir/Syntax.vos Ir/Fold.vos Infer/Canon.vos
 Infer/Unify.vo Infer/Unify.glob Infer/Unify.v.beautified Infer/Unify.required_vo: Infer/Unify.v Ir/Syntax.vo Ir/Fold.vo Infer/Table.vo
 Infer/Unify.vio: Infer/Unify.v Ir/Syntax.vio Ir/Fold.vio Infer/Table.vio
 Infer/Unify.vos Infer/Unify.vok Infer/Unify.required_vos: Infer/Unify.v Ir/Syntax.vos Ir/Fold.vos Infer/Table.vos
+Infer/Variance.vo Infer/Variance.glob Infer/Variance.v.beautified Infer/Variance.required_vo: Infer/Variance.v Ir/Syntax.vo Ir/Fold.vo Infer/Table.vo Infer/Unify.vo
+Infer/Variance.vio: Infer/Variance.v Ir/Syntax.vio Ir/Fold.vio Infer/Table.vio Infer/Unify.vio
+Infer/Variance.vos Infer/Variance.vok Infer/Variance.required_vos: Infer/Variance.v Ir/Syntax.vos Ir/Fold.vos Infer/Table.vos Infer/Unify.vos
 Ir/CouldMatch.vo Ir/CouldMatch.glob Ir/CouldMatch.v.beautified Ir/CouldMatch.required_vo: Ir/CouldMatch.v Ir/Syntax.vo Ir/Fold.vo
 Ir/CouldMatch.vio: Ir/CouldMatch.v Ir/Syntax.vio Ir/Fold.vio
 Ir/CouldMatch.vos Ir/CouldMatch.vok Ir/CouldMatch.required_vos: Ir/CouldMatch.v Ir/Syntax.vos Ir/Fold.vos
@@ -37,6 +73,12 @@ Logic/Contract.vos Logic/Contract.vok Logic/Contract.required_vos: Logic/Contrac
 Logic/Ground.vo Logic/Ground.glob Logic/Ground.v.beautified Logic/Ground.required_vo: Logic/Ground.v Logic/Sem.vo
 Logic/Ground.vio: Logic/Ground.v Logic/Sem.vio
 Logic/Ground.vos Logic/Ground.vok Logic/Ground.required_vos: Logic/Ground.v Logic/Sem.vos
+Logic/Meta.vo Logic/Meta.glob Logic/Meta.v.beautified Logic/Meta.required_vo: Logic/Meta.v Logic/Contract.vo
+Logic/Meta.vio: Logic/Meta.v Logic/Contract.vio
+Logic/Meta.vos Logic/Meta.vok Logic/Meta.required_vos: Logic/Meta.v Logic/Contract.vos
+Logic/Perm.vo Logic/Perm.glob Logic/Perm.v.beautified Logic/Perm.required_vo: Logic/Perm.v Logic/Contract.vo
+Logic/Perm.vio: Logic/Perm.v Logic/Contract.vio
+Logic/Perm.vos Logic/Perm.vok Logic/Perm.required_vos: Logic/Perm.v Logic/Contract.vos
 Logic/Program.vo Logic/Program.glob Logic/Program.v.beautified Logic/Program.required_vo: Logic/Program.v 
 Logic/Program.vio: Logic/Program.v 
 Logic/Program.vos Logic/Program.vok Logic/Program.required_vos: Logic/Program.v 
@@ -46,21 +88,57 @@ Logic/Sem.vos Logic/Sem.vok Logic/Sem.required_vos: Logic/Sem.v Logic/Program.vo
 Mem/InPlace.vo Mem/InPlace.glob Mem/InPlace.v.beautified Mem/InPlace.required_vo: Mem/InPlace.v 
 Mem/InPlace.vio: Mem/InPlace.v 
 Mem/InPlace.vos Mem/InPlace.vok Mem/InPlace.required_vos: Mem/InPlace.v 
-Props/C01.vo Props/C01.glob Props/C01.v.beautified Props/C01.required_vo: Props/C01.v Logic/Contract.vo
-Props/C01.vio: Props/C01.v Logic/Contract.vio
-Props/C01.vos Props/C01.vok Props/C01.required_vos: Props/C01.v Logic/Contract.vos
+Props/C01.vo Props/C01.glob Props/C01.v.beautified Props/C01.required_vo: Props/C01.v Logic/Contract.vo Logic/Meta.vo
+Props/C01.vio: Props/C01.v Logic/Contract.vio Logic/Meta.vio
+Props/C01.vos Props/C01.vok Props/C01.required_vos: Props/C01.v Logic/Contract.vos Logic/Meta.vos
 Props/C02.vo Props/C02.glob Props/C02.v.beautified Props/C02.required_vo: Props/C02.v Logic/Contract.vo
 Props/C02.vio: Props/C02.v Logic/Contract.vio
 Props/C02.vos Props/C02.vok Props/C02.required_vos: Props/C02.v Logic/Contract.vos
+Props/C03.vo Props/C03.glob Props/C03.v.beautified Props/C03.required_vo: Props/C03.v Engine/SlgTable.vo
+Props/C03.vio: Props/C03.v Engine/SlgTable.vio
+Props/C03.vos Props/C03.vok Props/C03.required_vos: Props/C03.v Engine/SlgTable.vos
 Props/C04.vo Props/C04.glob Props/C04.v.beautified Props/C04.required_vo: Props/C04.v Logic/Contract.vo
 Props/C04.vio: Props/C04.v Logic/Contract.vio
 Props/C04.vos Props/C04.vok Props/C04.required_vos: Props/C04.v Logic/Contract.vos
+Props/C05.vo Props/C05.glob Props/C05.v.beautified Props/C05.required_vo: Props/C05.v Rules/Builtin.vo
+Props/C05.vio: Props/C05.v Rules/Builtin.vio
+Props/C05.vos Props/C05.vok Props/C05.required_vos: Props/C05.v Rules/Builtin.vos
+Props/C06.vo Props/C06.glob Props/C06.v.beautified Props/C06.required_vo: Props/C06.v Rules/EnvElab.vo
+Props/C06.vio: Props/C06.v Rules/EnvElab.vio
+Props/C06.vos Props/C06.vok Props/C06.required_vos: Props/C06.v Rules/EnvElab.vos
+Props/C08.vo Props/C08.glob Props/C08.v.beautified Props/C08.required_vo: Props/C08.v Rules/Builtin.vo
+Props/C08.vio: Props/C08.v Rules/Builtin.vio
+Props/C08.vos Props/C08.vok Props/C08.required_vos: Props/C08.v Rules/Builtin.vos
+Props/C10.vo Props/C10.glob Props/C10.v.beautified Props/C10.required_vo: Props/C10.v Engine/RecEngine.vo Engine/RecWitness.vo
+Props/C10.vio: Props/C10.v Engine/RecEngine.vio Engine/RecWitness.vio
+Props/C10.vos Props/C10.vok Props/C10.required_vos: Props/C10.v Engine/RecEngine.vos Engine/RecWitness.vos
+Props/C11.vo Props/C11.glob Props/C11.v.beautified Props/C11.required_vo: Props/C11.v Engine/RecEngine.vo Engine/RecWitness.vo
+Props/C11.vio: Props/C11.v Engine/RecEngine.vio Engine/RecWitness.vio
+Props/C11.vos Props/C11.vok Props/C11.required_vos: Props/C11.v Engine/RecEngine.vos Engine/RecWitness.vos
+Props/C12.vo Props/C12.glob Props/C12.v.beautified Props/C12.required_vo: Props/C12.v Engine/RecEngine.vo Engine/RecWitness.vo
+Props/C12.vio: Props/C12.v Engine/RecEngine.vio Engine/RecWitness.vio
+Props/C12.vos Props/C12.vok Props/C12.required_vos: Props/C12.v Engine/RecEngine.vos Engine/RecWitness.vos
+Props/C13.vo Props/C13.glob Props/C13.v.beautified Props/C13.required_vo: Props/C13.v Logic/Perm.vo
+Props/C13.vio: Props/C13.v Logic/Perm.vio
+Props/C13.vos Props/C13.vok Props/C13.required_vos: Props/C13.v Logic/Perm.vos
+Props/C15.vo Props/C15.glob Props/C15.v.beautified Props/C15.required_vo: Props/C15.v Ir/Syntax.vo Infer/Table.vo Infer/Unify.vo
+Props/C15.vio: Props/C15.v Ir/Syntax.vio Infer/Table.vio Infer/Unify.vio
+Props/C15.vos Props/C15.vok Props/C15.required_vos: Props/C15.v Ir/Syntax.vos Infer/Table.vos Infer/Unify.vos
+Props/C16.vo Props/C16.glob Props/C16.v.beautified Props/C16.required_vo: Props/C16.v Ir/Syntax.vo Ir/Fold.vo Infer/Canon.vo Infer/UCanon.vo
+Props/C16.vio: Props/C16.v Ir/Syntax.vio Ir/Fold.vio Infer/Canon.vio Infer/UCanon.vio
+Props/C16.vos Props/C16.vok Props/C16.required_vos: Props/C16.v Ir/Syntax.vos Ir/Fold.vos Infer/Canon.vos Infer/UCanon.vos
+Props/C17.vo Props/C17.glob Props/C17.v.beautified Props/C17.required_vo: Props/C17.v Ir/Syntax.vo Ir/Fold.vo Agg/Instance.vo Agg/AntiUnify.vo Agg/MayInv.vo Agg/Solution.vo
+Props/C17.vio: Props/C17.v Ir/Syntax.vio Ir/Fold.vio Agg/Instance.vio Agg/AntiUnify.vio Agg/MayInv.vio Agg/Solution.vio
+Props/C17.vos Props/C17.vok Props/C17.required_vos: Props/C17.v Ir/Syntax.vos Ir/Fold.vos Agg/Instance.vos Agg/AntiUnify.vos Agg/MayInv.vos Agg/Solution.vos
 Props/C18.vo Props/C18.glob Props/C18.v.beautified Props/C18.required_vo: Props/C18.v Ir/Syntax.vo Ir/CouldMatch.vo
 Props/C18.vio: Props/C18.v Ir/Syntax.vio Ir/CouldMatch.vio
 Props/C18.vos Props/C18.vok Props/C18.required_vos: Props/C18.v Ir/Syntax.vos Ir/CouldMatch.vos
 Props/C19.vo Props/C19.glob Props/C19.v.beautified Props/C19.required_vo: Props/C19.v Check/Priorities.vo
 Props/C19.vio: Props/C19.v Check/Priorities.vio
 Props/C19.vos Props/C19.vok Props/C19.required_vos: Props/C19.v Check/Priorities.vos
+Props/C20.vo Props/C20.glob Props/C20.v.beautified Props/C20.required_vo: Props/C20.v Rules/Orphan.vo
+Props/C20.vio: Props/C20.v Rules/Orphan.vio
+Props/C20.vos Props/C20.vok Props/C20.required_vos: Props/C20.v Rules/Orphan.vos
 Props/C24.vo Props/C24.glob Props/C24.v.beautified Props/C24.required_vo: Props/C24.v Text/LowerFail.vo Text/LowerFailFacts.vo
 Props/C24.vio: Props/C24.v Text/LowerFail.vio Text/LowerFailFacts.vio
 Props/C24.vos Props/C24.vok Props/C24.required_vos: Props/C24.v Text/LowerFail.vos Text/LowerFailFacts.vos
@@ -73,6 +151,27 @@ Props/C26.vos Props/C26.vok Props/C26.required_vos: Props/C26.v Ir/Syntax.vos Ir
 Props/C27.vo Props/C27.glob Props/C27.v.beautified Props/C27.required_vo: Props/C27.v Mem/InPlace.vo
 Props/C27.vio: Props/C27.v Mem/InPlace.vio
 Props/C27.vos Props/C27.vok Props/C27.required_vos: Props/C27.v Mem/InPlace.vos
+Props/C28.vo Props/C28.glob Props/C28.v.beautified Props/C28.required_vo: Props/C28.v Ir/Syntax.vo Ir/Fold.vo Infer/Canon.vo Infer/Answer.vo
+Props/C28.vio: Props/C28.v Ir/Syntax.vio Ir/Fold.vio Infer/Canon.vio Infer/Answer.vio
+Props/C28.vos Props/C28.vok Props/C28.required_vos: Props/C28.v Ir/Syntax.vos Ir/Fold.vos Infer/Canon.vos Infer/Answer.vos
+Props/C29.vo Props/C29.glob Props/C29.v.beautified Props/C29.required_vo: Props/C29.v Ir/Syntax.vo Infer/Table.vo Infer/Unify.vo Infer/Variance.vo
+Props/C29.vio: Props/C29.v Ir/Syntax.vio Infer/Table.vio Infer/Unify.vio Infer/Variance.vio
+Props/C29.vos Props/C29.vok Props/C29.required_vos: Props/C29.v Ir/Syntax.vos Infer/Table.vos Infer/Unify.vos Infer/Variance.vos
+Rules/Auto.vo Rules/Auto.glob Rules/Auto.v.beautified Rules/Auto.required_vo: Rules/Auto.v Rules/Types.vo
+Rules/Auto.vio: Rules/Auto.v Rules/Types.vio
+Rules/Auto.vos Rules/Auto.vok Rules/Auto.required_vos: Rules/Auto.v Rules/Types.vos
+Rules/Builtin.vo Rules/Builtin.glob Rules/Builtin.v.beautified Rules/Builtin.required_vo: Rules/Builtin.v Rules/Auto.vo
+Rules/Builtin.vio: Rules/Builtin.v Rules/Auto.vio
+Rules/Builtin.vos Rules/Builtin.vok Rules/Builtin.required_vos: Rules/Builtin.v Rules/Auto.vos
+Rules/EnvElab.vo Rules/EnvElab.glob Rules/EnvElab.v.beautified Rules/EnvElab.required_vo: Rules/EnvElab.v Logic/Perm.vo
+Rules/EnvElab.vio: Rules/EnvElab.v Logic/Perm.vio
+Rules/EnvElab.vos Rules/EnvElab.vok Rules/EnvElab.required_vos: Rules/EnvElab.v Logic/Perm.vos
+Rules/Orphan.vo Rules/Orphan.glob Rules/Orphan.v.beautified Rules/Orphan.required_vo: Rules/Orphan.v 
+Rules/Orphan.vio: Rules/Orphan.v 
+Rules/Orphan.vos Rules/Orphan.vok Rules/Orphan.required_vos: Rules/Orphan.v 
+Rules/Types.vo Rules/Types.glob Rules/Types.v.beautified Rules/Types.required_vo: Rules/Types.v Logic/Program.vo Logic/Sem.vo Logic/Ground.vo
+Rules/Types.vio: Rules/Types.v Logic/Program.vio Logic/Sem.vio Logic/Ground.vio
+Rules/Types.vos Rules/Types.vok Rules/Types.required_vos: Rules/Types.v Logic/Program.vos Logic/Sem.vos Logic/Ground.vos
 Text/LowerFail.vo Text/LowerFail.glob Text/LowerFail.v.beautified Text/LowerFail.required_vo: Text/LowerFail.v 
 Text/LowerFail.vio: Text/LowerFail.v 
 Text/LowerFail.vos Text/LowerFail.vok Text/LowerFail.required_vos: Text/LowerFail.v 
@@ -82,3 +181,15 @@ Text/LowerFailFacts.vos Text/LowerFailFacts.vok Text/LowerFailFacts.required_vos
 Text/LowerFailRun.vo Text/LowerFailRun.glob Text/LowerFailRun.v.beautified Text/LowerFailRun.required_vo: Text/LowerFailRun.v Text/LowerFail.vo
 Text/LowerFailRun.vio: Text/LowerFailRun.v Text/LowerFail.vio
 Text/LowerFailRun.vos Text/LowerFailRun.vok Text/LowerFailRun.required_vos: Text/LowerFailRun.v Text/LowerFail.vos
+Text/Parse.vo Text/Parse.glob Text/Parse.v.beautified Text/Parse.required_vo: Text/Parse.v Text/Syntax22.vo Text/TokEq.vo
+Text/Parse.vio: Text/Parse.v Text/Syntax22.vio Text/TokEq.vio
+Text/Parse.vos Text/Parse.vok Text/Parse.required_vos: Text/Parse.v Text/Syntax22.vos Text/TokEq.vos
+Text/Print.vo Text/Print.glob Text/Print.v.beautified Text/Print.required_vo: Text/Print.v Text/Syntax22.vo
+Text/Print.vio: Text/Print.v Text/Syntax22.vio
+Text/Print.vos Text/Print.vok Text/Print.required_vos: Text/Print.v Text/Syntax22.vos
+Text/Syntax22.vo Text/Syntax22.glob Text/Syntax22.v.beautified Text/Syntax22.required_vo: Text/Syntax22.v 
+Text/Syntax22.vio: Text/Syntax22.v 
+Text/Syntax22.vos Text/Syntax22.vok Text/Syntax22.required_vos: Text/Syntax22.v 
+Text/TokEq.vo Text/TokEq.glob Text/TokEq.v.beautified Text/TokEq.required_vo: Text/TokEq.v Text/Syntax22.vo
+Text/TokEq.vio: Text/TokEq.v Text/Syntax22.vio
+Text/TokEq.vos Text/TokEq.vok Text/TokEq.required_vos: Text/TokEq.v Text/Syntax22.vos
